@@ -14,6 +14,12 @@ Fixpoint list_eqb (a b : list Z) : bool :=
   | _, _ => false
   end.
 
+Lemma list_eqb_eq a : forall b, list_eqb a b = true -> a = b.
+Proof.
+  induction a as [|x a IH]; intros [|y b] H; try discriminate; [reflexivity|].
+  cbn in H. apply andb_prop in H. destruct H as [H1 H2]. apply Z.eqb_eq in H1. subst. f_equal. auto.
+Qed.
+
 Definition is_rv32_word (d : instr_desc) : bool :=
   match d_tokens d with [t] => (t_size t =? 32) && negb (t_big t) | _ => false end.
 
@@ -128,15 +134,22 @@ Lemma rv_table_checked : check_from 0 (map fst rvref_bad_riscv) table_riscv = tr
 Proof. vm_compute. reflexivity. Qed.
 
 (* every table entry outside the exported disagreement list agrees with the reference on its whole domain *)
-Theorem rv_reference_bounded n d :
-  nth_error table_riscv n = Some d -> ~ In n (map fst rvref_bad_riscv) ->
-  forall ops, In ops (rv_domain d) -> in_range d ops = true /\ rv_agrees d ops = true.
+Theorem rv_reference_bounded n d e :
+  nth_error table_riscv n = Some d -> ~ In n (map fst rvref_bad_riscv) -> rv_expectation d = Some e ->
+  forall ops, In ops (rv_domain d) ->
+  in_range d ops = true /\
+  exists bytes, encode_instr d ops = Ok bytes /\
+                RV32Decode.decode bytes = Some (fst e, map (apply_vsel ops) (snd e)).
 Proof.
-  intros Hn Hb ops Hin.
+  intros Hn Hb He ops Hin.
   pose proof (check_from_spec _ _ 0%nat n d rv_table_checked Hn Hb) as H.
-  unfold rv_class_ok in H. unfold rv_agrees. destruct (rv_expectation d) as [e|] eqn:Ee.
-  - rewrite forallb_forall in H. specialize (H ops Hin). apply andb_prop in H. exact H.
-  - split; [|reflexivity]. exact (rv_uncovered_in_range d ops Ee Hin).
+  unfold rv_class_ok in H. rewrite He in H.
+  rewrite forallb_forall in H. specialize (H ops Hin). apply andb_prop in H. destruct H as [H1 H2].
+  split; [exact H1|]. unfold agrees_with in H2.
+  destruct (encode_instr d ops) as [bytes| | |]; try discriminate. exists bytes. split; [reflexivity|].
+  destruct (RV32Decode.decode bytes) as [[m l]|]; [|discriminate].
+  apply andb_prop in H2. destruct H2 as [Hm Hl]. apply String.eqb_eq in Hm. subst m.
+  f_equal. f_equal. apply list_eqb_eq. exact Hl.
 Qed.
 
 (* ... and every exported disagreement is a real one: in-range operands on which the reference decoder reads
